@@ -230,6 +230,12 @@ func (x *Exec) builtin(st *State, call *ast.CallExpr, name string) []Value {
 		x.doPanic(st, call)
 		st.dead = true
 		return nil
+	case "print", "println":
+		// diagnostics to stderr: the arguments are evaluated (their safety obligations count), nothing else changes
+		for _, a := range call.Args {
+			x.eval(st, a)
+		}
+		return nil
 	}
 	fail("builtin %s not in subset at %s", name, x.pos(call.Pos()))
 	return nil
